@@ -481,4 +481,138 @@ theorem beginBlock_tr (s : State) (dt : Nat) (hi : IdsT (gstat s.gauges)) : Tr s
   have t3 := epochTick_tr _ 2 (t2.idsT (t1.idsT hi))
   exact t0.trans (t1.trans (t2.trans t3))
 
+/-! ### the invariant and the messages -/
+
+/-- gauge id `id` names a slot of the table holding a perpetual gauge -/
+def NamedT (t : List (Nat × Bool)) (id : Nat) : Prop := id ≠ 0 ∧ ∃ p, t[id - 1]? = some p ∧ p.2 = true
+
+/-- every stored stream is not sponsored and names perpetual gauges only -/
+def NamedS (s : State) : Prop := ∀ st ∈ s.streams, SPQ (NamedT (gstat s.gauges)) st
+
+theorem NamedT_append (t l : List (Nat × Bool)) (id : Nat) (h : NamedT t id) : NamedT (t ++ l) id := by
+  obtain ⟨h0, p, hp, hb⟩ := h
+  refine ⟨h0, p, ?_, hb⟩
+  have hlt : id - 1 < t.length := (List.getElem?_eq_some_iff.1 hp).1
+  rw [List.getElem?_append_left hlt]; exact hp
+
+theorem SPQ_mono {Q Q' : Nat → Prop} (h : ∀ id, Q id → Q' id) (st : Stream) (hs : SPQ Q st) : SPQ Q' st :=
+  ⟨hs.1, fun r hr => h _ (hs.2 r hr)⟩
+
+theorem NamedS_of_tr {s s' : State} (h : NamedS s) (ht : Tr s s') : NamedS s' := by
+  intro st hst
+  have := ht.2 _ h st hst
+  rw [ht.1]; exact this
+
+/-- gauges appended (or the table's static part unchanged: `l = []`), streams untouched -/
+theorem NamedS_of_ext {s s' : State} (h : NamedS s) (l : List (Nat × Bool)) (hg : gstat s'.gauges = gstat s.gauges ++ l)
+    (hs : s'.streams = s.streams) : NamedS s' := by
+  intro st hst
+  rw [hs] at hst
+  rw [hg]
+  exact SPQ_mono (fun id hid => NamedT_append _ l id hid) st (h st hst)
+
+theorem NamedS_same {s s' : State} (h : NamedS s) (hg : s'.gauges = s.gauges) (hs : s'.streams = s.streams) : NamedS s' :=
+  NamedS_of_ext h [] (by rw [hg]; simp) hs
+
+/-- a perpetual gauge is never finished -/
+theorem perpetual_not_finished (g : Gauge) (now : Nat) (h : g.perpetual = true) : g.isFinished now = false := by
+  unfold Gauge.isFinished
+  rw [h]
+  by_cases hn : now < g.start
+  · simp [hn]
+  · have : g.start ≤ now := by omega
+    simp [hn, this]
+
+theorem liveRec_of_named (s : State) (r : Rec) (h : NamedT (gstat s.gauges) r.gauge) : LiveRec s r := by
+  obtain ⟨h0, p, hp, hb⟩ := h
+  unfold gstat at hp
+  rw [List.getElem?_map] at hp
+  cases hg : s.gauges[r.gauge - 1]? with
+  | none => simp [hg] at hp
+  | some g =>
+    simp only [hg, Option.map_some, Option.some.injEq] at hp
+    refine ⟨g, ?_, perpetual_not_finished g s.now ?_⟩
+    · unfold getGauge; rw [if_neg h0]; exact hg
+    · rw [← hp] at hb; exact hb
+
+/-- **the invariant gives `LiveS`** -/
+theorem liveS_of_named (s : State) (h : NamedS s) : LiveS s := by
+  intro st hst r hr
+  exact liveRec_of_named s r ((h st (mem_streamsOf hst)).2 r hr)
+
+theorem validateRecs_named (s : State) : ∀ (rs : List Rec) (last : Nat) (seen : List Nat), validateRecs s rs last seen = true →
+    ∀ r ∈ rs, NamedT (gstat s.gauges) r.gauge := by
+  intro rs
+  induction rs with
+  | nil => intro _ _ _ r hr; simp at hr
+  | cons x xs ih =>
+    intro last seen h r hr
+    unfold validateRecs at h
+    split at h
+    · simp at h
+    · split at h
+      · simp at h
+      · cases hg : getGauge s x.gauge with
+        | none => simp [hg] at h
+        | some g =>
+          simp only [hg] at h
+          by_cases hp : g.perpetual = true
+          · simp only [hp, Bool.not_true, Bool.false_eq_true, if_false] at h
+            rcases List.mem_cons.1 hr with h1 | h1
+            · rw [h1]
+              unfold getGauge at hg
+              split at hg
+              · simp at hg
+              · next h0 =>
+                refine ⟨h0, (g.id, g.perpetual), ?_, hp⟩
+                unfold gstat; rw [List.getElem?_map, hg]; rfl
+            · exact ih _ _ h r h1
+          · have : g.perpetual = false := by simpa using hp
+            simp [this] at h
+
+/-- no sponsored stream is created (its records would be the unvalidated sponsorship distribution) -/
+def Op.notSponsored : Op → Prop
+  | .createStream sp _ _ _ _ _ => sp = false
+  | _ => True
+
+instance (op : Op) : Decidable op.notSponsored := by
+  cases op <;> (unfold Op.notSponsored; infer_instance)
+
+theorem createGauge_ext (s : State) (o : Nat) (p : Bool) (d du : Nat) (hs : Bool) (c : Coins) (st n : Nat) :
+    (∃ l, gstat (createGauge s o p d du hs c st n).2.gauges = gstat s.gauges ++ l) ∧
+    (createGauge s o p d du hs c st n).2.streams = s.streams := by
+  unfold createGauge
+  split
+  · exact ⟨⟨[], by simp⟩, rfl⟩
+  · split
+    · exact ⟨⟨[], by simp⟩, rfl⟩
+    · split
+      · exact ⟨⟨[], by simp⟩, rfl⟩
+      · split
+        · exact ⟨⟨[], by simp⟩, rfl⟩
+        · refine ⟨⟨[(s.gauges.length + 1, p)], ?_⟩, rfl⟩
+          simp [gstat]
+
+theorem poolGaugesLoop_ext (denom : Nat) (hs : Bool) : ∀ (ds : List Nat) (s : State),
+    (∃ l, gstat (poolGaugesLoop denom hs ds s).2.gauges = gstat s.gauges ++ l) ∧
+    (poolGaugesLoop denom hs ds s).2.streams = s.streams := by
+  intro ds
+  induction ds with
+  | nil => intro s; exact ⟨⟨[], by simp [poolGaugesLoop]⟩, rfl⟩
+  | cons d rest ih =>
+    intro s
+    unfold poolGaugesLoop
+    obtain ⟨⟨l1, e1⟩, e2⟩ := createGauge_ext s streamerAddr true denom d hs [] s.now 1
+    generalize createGauge s streamerAddr true denom d hs [] s.now 1 = res at e1 e2
+    obtain ⟨o, s1⟩ := res
+    cases o with
+    | ok =>
+      simp only
+      obtain ⟨⟨l2, f1⟩, f2⟩ := ih s1
+      exact ⟨⟨l1 ++ l2, by rw [f1, e1, List.append_assoc]⟩, by rw [f2, e2]⟩
+    | invalid => exact ⟨⟨l1, e1⟩, e2⟩
+    | err => exact ⟨⟨l1, e1⟩, e2⟩
+    | panic => exact ⟨⟨l1, e1⟩, e2⟩
+    | halt => exact ⟨⟨l1, e1⟩, e2⟩
+
 end DymVerif.Incent
